@@ -727,6 +727,17 @@ def check_estimate(prog, rep):
                 if isinstance(val, int) and not isinstance(val, bool):
                     sentinel = (n, val)
         src_ix = [x.id for x in ast.walk(store.value) if isinstance(x, ast.Name)]
+        # binary search of the names in the (sorted) phenotyped names: the position found is where the name WOULD be inserted - it is the name's own row only if
+        # the entry there equals the name, which has to be tested
+        ss = [n for n in ast.walk(ast.Module(body=main, type_ignores=[])) if isinstance(n, ast.Call) and prog.dotted(f.module, n.func) == "numpy.searchsorted"]
+        if ss:
+            eq = [c for c in ast.walk(ast.Module(body=main, type_ignores=[])) if isinstance(c, ast.Compare) and len(c.ops) == 1 and isinstance(c.ops[0], (ast.Eq, ast.NotEq))
+                  and any(isinstance(x, ast.Attribute) and x.attr == "taxa" for x in ast.walk(c))]
+            if not eq:
+                rep.violate(R, c2, "taxa are located by %s and the rows gathered with only a bounds test: for a taxon WITHOUT a phenotype record searchsorted returns the position of the "
+                                   "next name in sort order, so it receives that taxon's mean instead of NaN" % dump(ss[0])[:60], where(f, store),
+                            "keep a row only where the located name equals the taxon's name", dump(store)[:70])
+                return
         if sentinel is not None and not any(isinstance(n, ast.Compare) and any(isinstance(c, (ast.Constant, ast.UnaryOp)) for c in [n.left] + n.comparators)
                                             and any(isinstance(x, ast.Name) and x.id in src_ix for x in ast.walk(n)) for n in ast.walk(ast.Module(body=main, type_ignores=[]))):
             rep.violate(R, c2, "taxa without a phenotype record are looked up with the default index %d and gathered unmasked: numpy reads %d as a valid row, so an "
